@@ -6,6 +6,8 @@ import (
 	"flag"
 	"fmt"
 	"os"
+	"strconv"
+	"strings"
 	"time"
 
 	"github.com/emmansun/gmsm/verifhook"
@@ -43,6 +45,32 @@ func Main() {
 	if !ok {
 		fmt.Fprintln(os.Stderr, "unknown workload", *wlName)
 		os.Exit(5)
+	}
+	// Prelude (plan key prelude=[...], env VERIF_PRELUDE): other workloads run first IN THIS PROCESS, a 1/k slice of
+	// their quick cases, journal discarded - their verdicts belong to their own jobs. What they leave behind in
+	// package-level state of the library (tables, pools, cached constants, lazily built singletons) is the
+	// environment in which the main workload is then judged: construction and use ORDER between object kinds and
+	// parameter choices becomes a workload dimension (seeded change c11-r7-m1: a MAC constructor patching a
+	// package-level constant that the cipher constructor reads).
+	if pre := os.Getenv("VERIF_PRELUDE"); pre != "" {
+		k := 16
+		if v, err := strconv.Atoi(os.Getenv("VERIF_PRELUDE_SHARDS")); err == nil && v > 0 {
+			k = v
+		}
+		for i, name := range strings.Split(pre, ",") {
+			pw, ok := reg.Get(name)
+			if !ok {
+				fmt.Fprintln(os.Stderr, "unknown prelude workload", name)
+				os.Exit(5)
+			}
+			px := &mon.Ctx{Prop: pw.Prop, Workload: pw.Name, Config: *config, Variant: *variant, Seed: *seed, Tier: "quick",
+				Shard: (int(*seed%1000) + *shard + i) % k, Shards: k, Only: -1, CaseDeadline: *dl}
+			if err := px.Open(os.DevNull, ""); err != nil {
+				fmt.Fprintln(os.Stderr, "open prelude:", err)
+				os.Exit(5)
+			}
+			pw.Run(px)
+		}
 	}
 	x := &mon.Ctx{Prop: w.Prop, Workload: w.Name, Config: *config, Variant: *variant, Seed: *seed, Tier: *tier,
 		Shard: *shard, Shards: *shards, Only: *only, After: *after, CaseDeadline: *dl}
